@@ -1,4 +1,4 @@
-"""C03 -- extract preserves behaviour or is refused (VGC rules R03.1-R03.21)."""
+"""C03 -- extract preserves behaviour or is refused (VGC rules R03.1-R03.22)."""
 from __future__ import annotations
 
 import ast
@@ -28,6 +28,7 @@ EXPLANATION += " R03.18: in the anchored modules and the shared text utilities n
 EXPLANATION += " R03.19: program text that is moved is not whitespace-normalised (the result of `\" \".join(text.split())` is only ever compared, never emitted)."
 EXPLANATION += " R03.20: the return-is-last test behind the refusal does not look through a try statement that has handlers."
 EXPLANATION += " R03.21: no `.add(*names)` in the extraction code (set.add / OrderedSet.add take one key: `global a, b` in the host made every extraction a TypeError)."
+EXPLANATION += " R03.22: a write after the region enters the set of certain later writes only under the negation of the flag set for conditional blocks that reach past the region."
 ASSUMPTIONS = [
     "the break/continue finder lacking AsyncFor and the missing scope cuts of the return counter only cause over-refusal, which the property allows: recorded as exceptions, not armed (R03.5 arms only the under-refusal direction: else clauses)",
     "IfExp/BoolOp conditional evaluation matters only with a walrus inside: not armed",
@@ -497,6 +498,7 @@ def check(ctx, res) -> None:
     _wn(ctx, res, "R03.19", ('rope.refactor.extract', 'rope.refactor.sourceutils', 'rope.refactor.similarfinder', 'rope.refactor.usefunction'))
     _return_last_is_not_seen_through_a_handler_rule(ctx, res)
     _one_key_at_a_time_rule(ctx, res)
+    _later_conditional_write_rule(ctx, res)
 
 
 def _loop_carried_reads_rule(ctx, res) -> None:
@@ -618,3 +620,34 @@ def _one_key_at_a_time_rule(ctx, res) -> None:
                      f"`{ast.unparse(c)[:60]}` hands all the elements to a method that takes ONE key: fine for `global a`, TypeError for `global a, b` -- extracting anything in a function "
                      "with such a declaration ends in an internal error instead of a result or a refusal")
     res.add("R03.21", "extract|add-takes-one-key", n == 0, "rope/refactor/extract.py:1", "no `.add(*...)` call in the extraction code" if n == 0 else f"{n} `.add(*...)` call(s) in the extraction code")
+
+
+def _later_conditional_write_rule(ctx, res) -> None:
+    """R03.22: whether the region's value of a variable is needed AFTER the region is decided by the reads that follow it -- except those a later
+    write shields.  A write shields only if it HAPPENS: one inside an `if` / loop / `try` that ends after the region may not (`b = a + 1` as the
+    region, then `if a > 5: b = 100`, then `return b`).  In the collector the entry into the set of certain later writes stands under the
+    negation of a flag that the conditional-context manager sets for blocks reaching past the region."""
+    from . import common
+    idx = ctx.idx
+    cls = idx.need_class("rope.refactor.extract._FunctionInformationCollector")
+    flags = set()
+    for m in cls.methods.values():
+        if any(d.split(".")[-1] == "contextmanager" for d in m.decorator_names()):
+            flags |= {t.attr for x in walk_local(m.node) if isinstance(x, ast.Assign) and isinstance(x.value, ast.Constant) and x.value.value is True
+                      for t in x.targets if is_self_attr(t)}
+    n = 0
+    for m in cls.methods.values():
+        cfg = None
+        for c in calls_in(m.node):
+            if not (isinstance(c.func, ast.Attribute) and c.func.attr == "add" and is_self_attr(c.func.value, "postwritten")):
+                continue
+            n += 1
+            cfg = cfg or CFG(m.node)
+            nds = cfg.node_containing(c)
+            ok = bool(nds) and all(any(not pol and is_self_attr(t) and t.attr in flags for t, pol in common.plain_guards(cfg, nd.id)) for nd in nds)
+            res.add("R03.22", f"_FunctionInformationCollector.{m.name}|only-certain-later-writes-shield#{n}", ok, f"{m.unit.rel}:{c.lineno}",
+                    "a write after the region counts as certain only outside blocks that reach past the region" if ok else
+                    f"`{ast.unparse(c)}` records EVERY write after the region as certain: with `b = a + 1` as the region followed by `if a > 5: b = 100` and `return b`, the read in the "
+                    "return is taken to see the later write, `b` is not returned from the helper, and the call site becomes a bare `new(a)` -- f(1) gives 0 instead of 2",
+                    function=m.qualname, flags=sorted(flags))
+    res.floor("R03.22", "entries into the set of certain later writes", n, 1)
